@@ -29,7 +29,8 @@ def replay_group(key, behs, root, pid='X02'):
             ext = np.asarray(ft.models.extended)
             want = np.array(b0['ext'], dtype=bool)
             col.replayed += 1
-            if ext.shape != want.shape or not np.array_equal(ext, want):
+            listed = (pid != 'X02')
+            if ext.shape != want.shape or (not listed and not np.array_equal(ext, want)):
                 col.violation('%s:extended' % pid, '%s package: extended flags %r, spec %r' % (fmt, ext.tolist(), want.tolist()), {'cfg': b0['cfg'], 'cube': b0['cube']})
                 continue
             for b in behs:
@@ -43,11 +44,26 @@ def replay_group(key, behs, root, pid='X02'):
                         continue
                     i_ = obs['names'].index(nm_)
                     chi, sc, av = obs['chi2'][i_], obs['sc'][i_], obs['av'][i_]
-                    if not row['allowed']:
-                        if not (math.isinf(chi) and abs(sc - math.log10(dist[0])) < 1e-9):
-                            bad = '%s is extended at every distance: chi2 %r scale %r, spec +inf at the first distance' % (nm_, chi, sc)
-                        continue
+                    if listed:
+                        # inside a LISTED property (C04) the classification itself -- WHICH cells count as extended -- is not at stake:
+                        # it is read from the fitter, and only what C02/C04 promise given that classification is compared
+                        used = [j for j, f_ in enumerate(b['src']['flag']) if f_ > 0]
+                        allowed = [i + 1 for i in range(len(dist)) if not any(ext[m][i][j] for j in used)]
+
+                        def key(i):
+                            f_ = row['fits'][i - 1]
+                            return (f_['big'], float(frac(f_['chi'])))
+                        kmin = min([key(i) for i in allowed]) if allowed else None
+                        row = dict(row, allowed=allowed, best=[i for i in allowed if key(i) == kmin])
                     di = int(np.argmin([abs(math.log10(x) - sc) for x in dist]))
+                    if not row['allowed']:
+                        if not math.isinf(chi):
+                            bad = '%s is extended at every distance: chi2 %r, spec +inf' % (nm_, chi)
+                        elif not listed and abs(sc - math.log10(dist[0])) >= 1e-9:
+                            bad = '%s is extended at every distance: scale %r, the code reports the first distance' % (nm_, sc)
+                        elif listed and obs['pred'] is not None and any(not fw.fclose(obs['pred'][i_][j], float(frac(row['fits'][di]['pred20'][j])) / 20.0, 1e-7, 1e-7) for j in range(2)):
+                            bad = '%s (chi2 = inf): predicted log fluxes %r do not belong to the reported distance %g pc and A_V' % (nm_, obs['pred'][i_], dist[di] * 1000)
+                        continue
                     f = row['fits'][di]
                     wchi = float(frac(f['chi'])) if not f['big'] else f['big'] * 1e30
                     if (di + 1) not in row['best']:
